@@ -900,11 +900,12 @@ func (r *reader) closeList() {
 	default:
 		if 3 <= len(list) && list[len(list)-2] == Symbol(".") {
 			if list[len(list)-1] == nil {
-				list[len(list)-2] = nil
+				// (a . nil) is (a)
+				list = list[:len(list)-2]
 			} else {
 				list[len(list)-2] = Tail{Value: list[len(list)-1]}
+				list = list[:len(list)-1]
 			}
-			list = list[:len(list)-1]
 			obj = list
 		} else {
 			obj = list
